@@ -38,6 +38,22 @@ def extra_cases(ctx, rng):
                 L.append(G.op(0, kind, k, rng.choice(["V", "W"]), 1))
         L.append("snap")
         out.append(({"abs": "history-%d" % n, "rs": rs, "w": w, "contents": [], "op": ("history",), "ck": ck}, L))
+    # large read-only entries (a size-dependent fast path must not share the inode with the
+    # write side), still writable by their owner (0644), promoted then exercised on the write side
+    n = 0
+    for w in (("plain", 2), ("sharded", 3, 6)):
+        for rs in ((("plain",),), (("sharded", 3),)):
+            for big in ("rep:Q:300000", "rep:Q:1200000"):
+                k = keys[0]
+                L = G.header(w, rs, "none")
+                L.append(G.plant(G.key_path(rs[0], "r0", k), big, mode=0o644, mtime=G.T0 + 3))
+                L.append(G.plant(G.key_path(rs[0], "r0", keys[1]), "A", mode=0o644, mtime=G.T0 + 4))
+                L.append("snap")
+                L += [G.NOFIRE, G.op(0, "ensure", k, "val:P:1"), G.FIRE, G.op(0, "gou", keys[1], "promote", 0, "val:P:1"),
+                      G.FIRE, G.op(0, "set", keys[2], "V", 1), G.FIRE, G.op(0, "put", keys[3], "W", 1), G.NOFIRE, G.op(0, "get", k)]
+                L.append("snap")
+                n += 1
+                out.append(({"abs": "large-promotion-%d" % n, "rs": rs, "w": w, "contents": [], "op": ("history",), "ck": "none"}, L))
     return out
 
 
